@@ -244,6 +244,8 @@ def write_evidence(pid, tier, seed, results, wall, viol_n, mod, known_hit):
             "outside": extra.get("outside", ""),
             "source_files": loader.source_files(),
             "inconclusive": incon,
+            "bug_hunt_only": {"searched": sum(r.get("hunted", 0) for r in results), "not_refuted": sum(r.get("not_refuted", 0) for r in results),
+                              "note": "bounded counterexample search on degenerate paths whose infeasibility the solver cannot decide; outside the claim"},
             "known_findings_observed": [f"{k['case']}/{k.get('obligation')}" for k, _ in known_hit],
             "lemmas_substituted": sorted({l for r in results for l in r.get("lemmas", [])}),
         },
